@@ -163,8 +163,19 @@ Proof. exact flags_example. Qed.
    Model/Climber.v is climb()'s float32 arithmetic (Flocq's IEEE 754 binary32, compared bit for bit with the real climb()
    on every run); whatever the samples, int(amount) stays within +-2^61.  This theorem alone in this file rests on the
    standard library's axioms of the real numbers (through Flocq's specification of rounding). *)
-From Verif Require Import Model.Climber Proof.ClimberP.
+From Verif Require Import Model.Climber Proof.ClimberP Proof.CtorP.
 Theorem c07_climb_amounts_meet_guard : forall shape cap samples a, 1 <= cap < 2 ^ 61 ->
   In a (amounts shape (climber_new cap) samples) -> - two63 < a < two63.
 Proof. exact climb_amounts_meet_guard. Qed.
 Print Assumptions c07_climb_amounts_meet_guard.
+
+(* the policy as NewTinyLfu / NewSlru build it: window = max 1 (uint(float32(size) * 0.01)), main = size - window (no
+   wrap-around), protected = uint(float32(main) * 0.8), in float32 as the code computes them (fractions scraped, results
+   compared with the real constructors for sizes up to 2^61) - satisfies the invariant for every size below 2^61.
+   c07_init is about arbitrary capacities; this is about the ones the code produces.  Rests on the real-number axioms
+   (Flocq), like the theorem above. *)
+Theorem c07_constructor : forall size, 1 <= size < 2 ^ 61 ->
+  1 <= init_window size <= size /\ init_main size = size - init_window size /\ 0 <= init_protected size /\
+  PInv (pol_init [size; init_window size; init_protected size]).
+Proof. exact constructed_policy_ok. Qed.
+Print Assumptions c07_constructor.
